@@ -91,3 +91,36 @@ package cache
 //@   ensures result ==> calls("(*sync/atomic.Int64).Add") == 1 && calls("(*internal/cache.UInt64Map[any]).Del") == 1
 //@   assert at call (*internal/cache.UInt64Map[any]).Del#1: ok && cur == old && arg1 == key
 //@   assert at call (*sync/atomic.Int64).Add#1: arg1 == -1
+//@
+//@ # ---- C03 / C02: the wire-path name verifier. A wire name equals a stored presentation name iff the stored string
+//@ # is, octet for octet under ASCII folding, the ESCAPED presentation of the wire labels: a special octet as "\\x", an
+//@ # octet outside ' '..'~' as "\\DDD", every label closed by '.', the root alone as "."; the wire name must be plain
+//@ # (no compression or reserved label types), exactly consumed, and at most 255 octets
+//@ spec wfold(b byte) byte := ite(b >= 65 && b <= 90, b + 32, b)
+//@ spec presSpecial(b byte) bool := b == 46 || b == 32 || b == 39 || b == 64 || b == 59 || b == 40 || b == 41 || b == 34 || b == 92
+//@ spec pm(name string, si int, c byte) bool := 0 <= si && si < len(name) && wfold(name[si]) == wfold(c)
+//@ recspec presLabel(w []byte, p int, end int, name string, si int) int := ite(p >= end, si, ite(presSpecial(w[p]), ite(pm(name, si, 92) && pm(name, si + 1, w[p]), presLabel(w, p + 1, end, name, si + 2), -1), ite(w[p] < 32 || w[p] > 126, ite(pm(name, si, 92) && pm(name, si + 1, 48 + w[p] / 100) && pm(name, si + 2, 48 + w[p] / 10 % 10) && pm(name, si + 3, 48 + w[p] % 10), presLabel(w, p + 1, end, name, si + 4), -1), ite(pm(name, si, w[p]), presLabel(w, p + 1, end, name, si + 1), -1))))
+//@ recspec presName(w []byte, off int, name string, si int, wrote bool) bool := ite(off < 0 || off >= len(w), false, ite(w[off] == 0, off + 1 == len(w) && ite(wrote, si == len(name), pm(name, si, 46) && si + 1 == len(name)), ite(w[off] & 192 != 0 || off + 1 + int(w[off]) > len(w), false, presLabel(w, off + 1, off + 1 + int(w[off]), name, si) >= 0 && pm(name, presLabel(w, off + 1, off + 1 + int(w[off]), name, si), 46) && presName(w, off + 1 + int(w[off]), name, presLabel(w, off + 1, off + 1 + int(w[off]), name, si) + 1, true))))
+//@
+//@ func isPresentationSpecial
+//@   arith bv
+//@   modifies nothing
+//@   ensures result == presSpecial(b)
+//@ func WireNameEqualsPresentation$1
+//@   arith bv
+//@   modifies nothing
+//@   ensures result == wfold(b)
+//@ func WireNameEqualsPresentation$2
+//@   arith bv
+//@   requires 0 <= si
+//@   modifies si
+//@   ensures result == pm(name, old(si), c)
+//@   ensures result ==> si == old(si) + 1
+//@   ensures !result ==> si == old(si)
+//@ func WireNameEqualsPresentation
+//@   arith bv
+//@   timeout 40
+//@   modifies nothing
+//@   loop 1 invariant 0 <= off && off <= len(wireName) && 0 <= si && presName(wireName, off, name, si, wroteLabel) == presName(wireName, 0, name, 0, false)
+//@   loop 2 invariant 0 <= si && 0 < c && c < 64 && 0 <= rangeidx && rangeidx <= c && off + c <= len(wireName) && 0 < off && off <= 256 && presName(wireName, 0, name, 0, false) == (presLabel(wireName, off + rangeidx, off + c, name, si) >= 0 && pm(name, presLabel(wireName, off + rangeidx, off + c, name, si), 46) && presName(wireName, off + c, name, presLabel(wireName, off + rangeidx, off + c, name, si) + 1, true))
+//@   ensures result == (len(wireName) != 0 && len(wireName) <= 255 && presName(wireName, 0, name, 0, false))
